@@ -138,6 +138,17 @@ CHECKS["C17"] = {
     "technique": "bounded symbolic execution (CrossHair + z3) of probe lifecycle histories vs an event-window model",
 }
 
+CHECKS["C14"] = {
+    "category": "model_checking",
+    "text": "For five placements of a function in a generated on-disk module (module level, method, nested-class method, closure, "
+            "decorated) every history of <= 5 (thorough 7) operations over {activate a probe by name, activate one by reference "
+            "string, deactivate either, call, resolve the reference} is executed on the real code: each resolution must return that "
+            "very function object and the by-reference probe must receive exactly what the by-name probe receives.",
+    "design_ref": "DESIGN.md section 4, C14",
+    "note": "codefind lookups and probe activation run natively (concrete data); the op list and call values are symbolic.",
+    "technique": "bounded symbolic execution (CrossHair + z3) of probe/resolve histories over a generated module",
+}
+
 NOT_YET = {}
 
 
